@@ -94,11 +94,11 @@ Ltac res_cases H :=
 (* whatever the node does with a board message that reaches the round FSM and is accepted:
    the signature on it verified under the key registered for its sender, and the participant
    named in the request is the one registered for that sender *)
-Theorem accepted_contribution_is_authentic now st m req pid h o :
+Theorem accepted_contribution_is_authentic put now st m req pid h o :
   ns_skip st = false ->
   m_event m <> ev_sig_init -> m_event m <> ev_sig_reconstructed -> m_event m <> ev_sig_recon_failed ->
   m_req m = MFsm req -> req_pid req = Some pid ->
-  process_message now {| h_st := st; h_tr := [] |} m = ROk h (Some o) ->
+  process_message put now {| h_st := st; h_tr := [] |} m = ROk h (Some o) ->
   (exists p, round_payload st (m_round m) p /\ valid_sig p m) /\
   (exists p', registered_as p' (m_sender m) pid).
 Proof.
@@ -186,8 +186,8 @@ Definition needs_lazy_restart (s : string) : bool := has_suffix s "_error" || ha
 Lemma no_state_writes_app a b : no_state_writes a -> no_state_writes b -> no_state_writes (a ++ b).
 Proof. intros Ha Hb w Hin. apply in_app_or in Hin as [H|H]; [apply Ha; exact H|apply Hb; exact H]. Qed.
 
-Lemma pm_prop_err m req h i4 op h' :
-  no_state_writes (h_tr h) -> pm_prop m req h i4 op = RErr h' -> no_state_writes (h_tr h').
+Lemma pm_prop_err put m req h i4 op h' :
+  no_state_writes (h_tr h) -> pm_prop put m req h i4 op = RErr h' -> no_state_writes (h_tr h').
 Proof.
   intros Hn. unfold pm_prop. destruct (String.eqb (m_event m) ev_sgn_start); [|discriminate].
   destruct (m_tasks m) as [tasks|]; [|intros H; inversion H; subst; exact Hn].
@@ -197,8 +197,8 @@ Proof.
   intros w [<-|[]]. exact I.
 Qed.
 
-Lemma pm_tail_err now m req h inst h' :
-  no_state_writes (h_tr h) -> pm_tail now m req h inst = RErr h' -> no_state_writes (h_tr h').
+Lemma pm_tail_err put now m req h inst h' :
+  no_state_writes (h_tr h) -> pm_tail put now m req h inst = RErr h' -> no_state_writes (h_tr h').
 Proof.
   intros Hn. unfold pm_tail.
   destruct (negb (sender_is_participant _ _ _)); [intros H; inversion H; subst; exact Hn|].
@@ -224,8 +224,8 @@ Proof. unfold pm_restart. destruct (do_live _ _ _); reflexivity. Qed.
 
 (* a refused message changes nothing in the node's state store - whatever state the round was found
    in (since the repair of the lazy restart it holds for rounds found in a cancelled signing state too) *)
-Theorem refused_message_writes_nothing now st m h :
-  process_message now {| h_st := st; h_tr := [] |} m = RErr h ->
+Theorem refused_message_writes_nothing put now st m h :
+  process_message put now {| h_st := st; h_tr := [] |} m = RErr h ->
   no_state_writes (h_tr h).
 Proof.
   intros H. unfold process_message in H.
@@ -256,7 +256,7 @@ Proof.
      else match (if has_suffix (i_dstate i) "_timeout" && has_prefix (i_dstate i) "state_signing_"
                  then match p_sgn (i_payload i) with Some _ => pm_restart now m h0 i | None => RPanic end
                  else ROk h0 i) with
-          | ROk h2 inst2 => match m_req m with MFsm req => pm_tail now m req h2 inst2 | _ => RErr h2 end
+          | ROk h2 inst2 => match m_req m with MFsm req => pm_tail put now m req h2 inst2 | _ => RErr h2 end
           | RErr h2 => RErr h2
           | RPanic => RPanic
           end) = RErr h -> no_state_writes (h_tr h)).
@@ -300,7 +300,6 @@ Theorem refused_board_message_writes_nothing now st m h :
   no_state_writes (h_tr h).
 Proof.
   unfold process_board_message.
-  destruct (process_message now {| h_st := st; h_tr := [] |} m) as [h1 [o|]|h1|] eqn:E; try discriminate.
-  - unfold put_operation. destruct (existsb _ _); discriminate.
-  - intros H. inversion H; subst. eapply refused_message_writes_nothing. exact E.
+  destruct (process_message true now {| h_st := st; h_tr := [] |} m) as [h1 o|h1|] eqn:E; try discriminate.
+  intros H. inversion H; subst. eapply refused_message_writes_nothing. exact E.
 Qed.
